@@ -430,17 +430,30 @@ def oracle_rt(cin, rows):
     # hardlink classes
     files = [(loc, e) for loc, e in expected.items() if e["k"] == "reg"]
 
-    def hkey(e):
-        if e["dev"] is None or e["ino"] is None:
-            return None
-        return (e["dev"], e["ino"], e["uid"], e["gid"], e["mode"], e["mtime"])
+    def ikey(e):
+        return None if e["dev"] is None or e["ino"] is None else (e["dev"], e["ino"])
 
+    def attrs(e):
+        return (e["uid"], e["gid"], e["mode"], e["mtime"])
+
+    # an inode whose names disagree on owner/mode/mtime cannot come from a filesystem (a set edited after
+    # the scan); for such an inode the statement only forbids merging names with different attributes
+    groups = {}
+    for _, e in files:
+        if ikey(e) is not None:
+            groups.setdefault(ikey(e), set()).add(attrs(e))
     for i, (l1, e1) in enumerate(files):
         for l2, e2 in files[i + 1:]:
-            same_in = hkey(e1) is not None and hkey(e1) == hkey(e2)
             same_out = got[l1][7] == got[l2][7]
-            if same_in != same_out:
-                return {"what": "hardlink classes changed", "a": l1, "b": l2, "shared_before": same_in,
+            same_key = ikey(e1) is not None and ikey(e1) == ikey(e2)
+            if same_key and len(groups[ikey(e1)]) == 1:
+                want = True
+            elif same_key and attrs(e1) == attrs(e2):
+                continue
+            else:
+                want = False
+            if want != same_out:
+                return {"what": "hardlink classes changed", "a": l1, "b": l2, "shared_before": want,
                         "shared_after": same_out}
     return None
 
@@ -482,9 +495,13 @@ def build_foreign(rng, path, ids, shape):
 
     pre = rng.choice(["./", "./", "", "/"])
     if shape == "chain":
+        # (tarfile's own link lookup, used for the DATA of a hardlink member, only finds the target when
+        # member names and link names are both relative; pkgcore's inode cache is more tolerant.  The
+        # model follows the inode cache, so this stream keeps to relative names.)
+        pre = rng.choice(["./", ""])
         other(pre + "d", b"5")
         reg(pre + "d/z")
-        other(pre + "d/y", b"1", rng.choice(["./d/z", "d/z", "/d/z", "d//z", "./d/../d/z"]))
+        other(pre + "d/y", b"1", rng.choice(["./d/z", "d/z", "d//z", "./d/../d/z"]))
         other(pre + "x", b"1", rng.choice(["./d/y", "d/y"]))
         if rng.random() < 0.5:
             other(pre + "w", b"1", rng.choice(["./x", "x"]))
@@ -569,17 +586,8 @@ def main(chk: Check):
             can_mknod = False
             chk.note("mknod not permitted here: device nodes are only exercised through foreign archives")
         shapes = ["plain", "plain", "missing-dirs", "no-inode", "same-inode-diff-attrs", "symdir", "symdir"]
-        codecs = ["bz2", "xz", "raw", "bzip2"]
-        n = chk.n(42, 400)
-        for i in range(n):
-            ids = Ids()
-            root = os.path.join(work, f"r{i}")
-            shape = shapes[i % len(shapes)]
-            codec = codecs[i % len(codecs)] if i % 5 else rng.choice(codecs)
-            devices = can_mknod and i % 4 == 1
-            build_tree(rng, root, big=(i % 3 == 0), devices=devices)
-            objs, tags = shape_set(rng, list(livefs.iter_scan(root, offset=root)), shape)
-            cset = contents.contentsSet(objs)
+        n = 300 if chk.thorough else (126 if chk.fingerprint_changed else 42)   # changed anchors: 3x
+        def run_set(i, cset, ids, shape, codec, tags):
             cin = [canon_in(x, ids) for x in cset]
             term = clist([c_entry(d) for d in cin], "entry")
             tarpath = os.path.join(work, f"t{i}.tar")
@@ -613,25 +621,43 @@ def main(chk: Check):
             if tags - {"shuffled"}:
                 chk.nontrivial(("rt", i, tuple(sorted(tags))))
             for t in tags:
-                chk.count("tag:" + t, 0)
-                chk.cov["streams"]["tag:" + t] += 1
+                chk.cov["streams"]["tag:" + t] = chk.cov["streams"].get("tag:" + t, 0) + 1
             # (B) directly on the implementation
             bad = oracle_rt(cin, rows)
             if bad is not None:
                 prop_failures.append({"stream": "rt", "shape": shape, "codec": codec, "failure": bad,
                                       "set": cin, "read_back": rows})
-            if i < 2:
+            if len(rt_cases) in (2, 3):
                 chk.sample({"stream": "rt", "shape": shape, "codec": codec, "set": cin,
                             "members": members, "read_back": rows})
+            if os.path.exists(tarpath):
+                os.unlink(tarpath)
+
+        # the witness of Proofs_C25.symdirs_resolved_refuted (chain_set), replayed on the implementation
+        from pkgcore.fs import fs as fsmod
+        kw = {"uid": 0, "gid": 0, "mtime": 0}
+        witness = [fsmod.fsDir("/sbin", mode=0o755, **kw), fsmod.fsDir("/Zz1/Z", mode=0o755, **kw),
+                   fsmod.fsSymlink("/lnk0", "sbin", mode=0o777, **kw),
+                   fsmod.fsSymlink("/Zz1", "/lnk0", mode=0o777, **kw)]
+        run_set("w0", contents.contentsSet(witness), Ids(), "witness-chain", "bz2", {"symdir-chain"})
+        for i in range(n):
+            ids = Ids()
+            root = os.path.join(work, f"r{i}")
+            shape = shapes[i % len(shapes)]
+            # (xz at the level write_set uses costs ~1 s of encoder set-up per archive: fewer of them)
+            codec = "xz" if i % 14 == 5 else ("bz2", "raw", "bzip2")[i % 3]
+            devices = can_mknod and i % 4 == 1
+            build_tree(rng, root, big=(i % 3 == 0), devices=devices)
+            objs, tags = shape_set(rng, list(livefs.iter_scan(root, offset=root, chksum_types=("size",))), shape)
+            run_set(i, contents.contentsSet(objs), ids, shape, codec, tags)
             shutil.rmtree(root, ignore_errors=True)
-            os.unlink(tarpath) if os.path.exists(tarpath) else None
         chk.count("w", len(w_cases))
         chk.count("rt", len(rt_cases))
         t_sets = time.time() - chk.t0
 
         # ---- foreign archives
         fshapes = ["chain", "names", "symdir", "dangling", "unknown", "symdir", "chain"]
-        for i in range(chk.n(28, 200)):
+        for i in range(150 if chk.thorough else (84 if chk.fingerprint_changed else 28)):
             ids = Ids()
             shape = fshapes[i % len(fshapes)]
             p = os.path.join(work, f"f{i}.tar")
@@ -682,10 +708,11 @@ def main(chk: Check):
     ]
     spec_bad = []
     corr = []
-    for name, ty, cases, evals in streams:
-        if not ok:
-            break
-        r = chk.coq_eval(name, IMPORTS, ty, cases, evals, shard=12)
+    import concurrent.futures as cf
+    with cf.ThreadPoolExecutor(max_workers=3) as ex:     # the three streams side by side
+        futs = [(s, ex.submit(chk.coq_eval, s[0], IMPORTS, s[1], s[2], s[3], 50 if not (chk.thorough or chk.fingerprint_changed) else 25)) for s in streams] if ok else []
+        results = [(s, f.result()) for s, f in futs]
+    for (name, ty, cases, evals), r in results:
         if r is None:
             continue
         if name == "rt":
@@ -704,7 +731,14 @@ def main(chk: Check):
             continue
         new_failures.append(b)
     prop_failures = new_failures
-    for b in prop_failures[:4]:
+    seen_kinds, ordered = set(), []
+    for b in prop_failures:                 # one failure of every distinct kind first
+        k = (b["stream"], b["shape"], b["failure"]["what"])
+        if k not in seen_kinds:
+            seen_kinds.add(k)
+            ordered.append(b)
+    ordered += [b for b in prop_failures if b not in ordered]
+    for b in ordered[:6]:
         chk.violation("property", {"what": b["failure"]["what"], "input": b})
     if spec_bad and not prop_failures:
         for s in spec_bad[:3]:
@@ -712,3 +746,45 @@ def main(chk: Check):
                                        "input": s})
     for c in corr:
         chk.violation("correspondence", c, no_input=not (prop_failures or spec_bad))
+
+
+def replay(chk, data):
+    """re-run one recorded rt case: rebuild the recorded set from fs objects (file data from the data ids),
+    write it, read it back, print implementation result and oracle verdict; model/spec verdicts are in
+    the recorded violation"""
+    from pkgcore.fs import contents, fs as fsmod
+    from snakeoil.data_source import data_source
+    inp = data.get("detail", {}).get("input") or {}
+    cin = inp.get("set") or (inp.get("case") or {}).get("set")
+    if not cin:
+        print("nothing to replay in this record (a correspondence record carries the Coq input term)")
+        return
+    objs = []
+    ids = Ids()
+    for d in cin:
+        kw = {"mode": d["mode"], "uid": d["uid"], "gid": d["gid"], "mtime": d["mtime"] / 4}
+        if d["k"] == "reg":
+            content = (b"D%d:" % d["data"]).ljust(d["size"], b".")[:d["size"]]
+            ids.data[content] = d["data"]
+            objs.append(fsmod.fsFile(d["loc"], data=data_source(content), chksums={"size": d["size"]},
+                                     dev=d["dev"], inode=d["ino"], **kw))
+        elif d["k"] == "dir":
+            objs.append(fsmod.fsDir(d["loc"], **kw))
+        elif d["k"] == "sym":
+            objs.append(fsmod.fsSymlink(d["loc"], d["target"], **kw))
+        elif d["k"] == "fifo":
+            objs.append(fsmod.fsFifo(d["loc"], **kw))
+        else:
+            objs.append(fsmod.fsDev(d["loc"], major=d["major"], minor=d["minor"], **kw))
+    work = tempfile.mkdtemp(prefix="verif_c25_replay_")
+    try:
+        p = os.path.join(work, "t.tar")
+        codec = inp.get("codec") or "bz2"
+        w = impl_call(lambda: impl_write(contents.contentsSet(objs), p, codec))
+        rows = w if isinstance(w, Err) else guarded(
+            lambda: canon_out(impl_read(p, codec), ids, time.time(), time.time() + 5, set()))
+        print("implementation:", rows)
+        print("oracle:", oracle_rt(cin, rows))
+        print("in known class symdir-chain:", in_symdir_chain_class(cin))
+    finally:
+        shutil.rmtree(work, ignore_errors=True)
